@@ -454,6 +454,7 @@ func checkType(res *core.Result, pkg *packages.Package, gt *graphType) {
 					})
 				}
 			}
+			m.checkTogether(effs, conv)
 			m.checkIDs(effs)
 			if fd.Name.Name == "RemoveNode" {
 				m.checkRemoveNode(effs)
@@ -891,4 +892,62 @@ func together(g *cfgx.Graph, info *types.Info, a, b ast.Node) bool {
 		return false
 	}
 	return !escapes(g.Blocks[la.Block], la.Index+1)
+}
+
+// checkTogether implements GRAPHINV.together, the path form of the converse
+// rule: an ADD or DEL effect and its converse execute together. For every
+// site of such an effect, some site of the converse effect dominates it, or
+// lies on every path from it to a normal return (panicking paths leave no
+// graph to be inconsistent). The set-level rule accepts a method in which an
+// early return or a missing switch arm separates the two updates.
+func (m *methodCtx) checkTogether(effs []effect, conv func(string) string) {
+	var g *cfgx.Graph
+	locOf := func(pos token.Pos) (cfgx.Loc, bool) {
+		for n, l := range g.Where {
+			if n.Pos() == pos {
+				return l, true
+			}
+		}
+		return cfgx.Loc{}, false
+	}
+	for _, e := range effs {
+		if e.kind != "ADD" && e.kind != "DEL" {
+			continue
+		}
+		var convs []effect
+		for _, c := range effs {
+			if c.kind == e.kind && c.rel == conv(e.rel) && c.a == e.b && c.b == e.a && c.l == e.l && c.pos != e.pos {
+				convs = append(convs, c)
+			}
+		}
+		if len(convs) == 0 {
+			continue // reported by GRAPHINV.converse (or self-converse)
+		}
+		if g == nil {
+			g = cfgx.New(m.fd.Body, m.info)
+		}
+		el, ok := locOf(e.pos)
+		if !ok {
+			continue
+		}
+		m.res.Obligations++
+		m.res.Count("effects_paired_with_a_converse_site", 1)
+		at := map[int32][]int{}
+		for _, c := range convs {
+			if cl, ok := locOf(c.pos); ok {
+				at[cl.Block] = append(at[cl.Block], cl.Index)
+			}
+		}
+		gen := func(b *cfg.Block) bool { return len(at[b.Index]) > 0 }
+		// same block, before or after
+		okHere := len(at[el.Block]) > 0
+		dominated := g.MustPass(gen)[el.Block]
+		post := g.MustReachExit(gen)[el.Block]
+		if okHere || dominated || post {
+			continue
+		}
+		want := effect{kind: e.kind, rel: conv(e.rel), a: e.b, b: e.a, l: e.l}.String()
+		m.res.Add(core.Finding{Rule: "GRAPHINV.together", Key: fmt.Sprintf("GRAPHINV.together|%s|%s", m.name, e.String()), Pos: core.Pos(e.pos), Func: m.name,
+			Msg: fmt.Sprintf("adjacency effect %s is not accompanied by its converse %s on every path: a path from here to a return avoids every site of the converse update, so the forward and reverse relations stop being mirror images", e.String(), want)})
+	}
 }
